@@ -636,14 +636,21 @@ char* MemoryLeakDetector::allocMemory(TestMemoryAllocator* allocator, size_t siz
     return allocMemory(allocator, size, UNKNOWN, 0, allocatNodesSeperately);
 }
 
+static bool sizeWithAccountingInformationOverflows(size_t size)
+{
+    return size > (size_t) -1 - (MemoryLeakDetector::memory_corruption_buffer_size + sizeof(void*) + sizeof(MemoryLeakDetectorNode));
+}
+
 char* MemoryLeakDetector::allocateMemoryWithAccountingInformation(TestMemoryAllocator* allocator, size_t size, const char* file, size_t line, bool allocatNodesSeperately)
 {
+    if (sizeWithAccountingInformationOverflows(size)) return NULLPTR;
     if (allocatNodesSeperately) return allocator->alloc_memory(sizeOfMemoryWithCorruptionInfo(size), file, line);
     else return allocator->alloc_memory(sizeOfMemoryWithCorruptionInfo(size) + sizeof(MemoryLeakDetectorNode), file, line);
 }
 
 char* MemoryLeakDetector::reallocateMemoryWithAccountingInformation(TestMemoryAllocator* /*allocator*/, char* memory, size_t size, const char* /*file*/, size_t /*line*/, bool allocatNodesSeperately)
 {
+    if (sizeWithAccountingInformationOverflows(size)) return NULLPTR;
     if (allocatNodesSeperately) return (char*) PlatformSpecificRealloc(memory, sizeOfMemoryWithCorruptionInfo(size));
     else return (char*) PlatformSpecificRealloc(memory, sizeOfMemoryWithCorruptionInfo(size) + sizeof(MemoryLeakDetectorNode));
 }
